@@ -55,7 +55,7 @@ func (C07) Budget(tier string) (int, time.Duration) {
 	if tier == "thorough" {
 		return 6000, 28 * time.Minute
 	}
-	return 320, 4 * time.Minute
+	return 480, 4 * time.Minute
 }
 
 func listFixtures() []string {
